@@ -1,0 +1,109 @@
+//go:build verif
+
+package avc
+
+// Property C15 (agent c15): AVC parameter sets, slice headers and configuration records.
+
+// ---------------------------------------------------------------- AVCDecoderConfigurationRecord (ISO/IEC 14496-15, 5.3.3.1.2)
+// Layout: [0] configurationVersion = 1, [1] AVCProfileIndication, [2] profile_compatibility, [3] AVCLevelIndication,
+// [4] 111111 lengthSizeMinusOne(2), [5] 111 numOfSequenceParameterSets(5), then per SPS: length(16) + NAL unit, then
+// numOfPictureParameterSets(8), per PPS: length(16) + NAL unit, then (extended profiles) 111111 chroma_format(2),
+// 11111 bit_depth_luma_minus8(3), 11111 bit_depth_chroma_minus8(3), numOfSequenceParameterSetExt(8).
+
+// Decoder: the fixed six-byte header. (The NAL unit lists are built with append: a statement about all of them needs an
+// inductive lemma over the growing slice that the engine does not have -- tried, `unknown`; see the report.)
+// avccP11(d): end of the parameter set lists of a record with exactly one SPS and one PPS.
+//@ spec avccP11(d []byte) int = 11+int(be16(d, 6))+int(be16(d, 9+int(be16(d, 6))))
+//@ func DecodeAVCDecConfRec
+//@   ensures[C15] result1 == nil && len(result0.SPSnalus) == 1 && len(result0.PPSnalus) == 1 && !(data[1] == 66 || data[1] == 77 || data[1] == 88) && !result0.NoTrailingInfo ==> result0.ChromaFormat == data[avccP11(data)] & 3 && result0.BitDepthLumaMinus1 == data[avccP11(data)+1] & 7 && result0.BitDepthChromaMinus1 == data[avccP11(data)+2] & 7 && data[avccP11(data)+3] == 0
+//@   ensures[C15] result1 == nil ==> len(data) >= 7 && data[0] == 1 && result0.AVCProfileIndication == data[1] && result0.ProfileCompatibility == data[2] && result0.AVCLevelIndication == data[3] && data[4] & 3 == 3
+//@   ensures[C15] result1 == nil ==> len(result0.SPSnalus) == int(data[5] & 0x1f)
+//@   ensures[C15] result1 == nil && len(result0.SPSnalus) >= 1 ==> len(data) >= 8 && result0.SPSnalus[0] == data[8:8+int(be16(data, 6))]
+//@   ensures[C15] result1 == nil ==> len(result0.PPSnalus) >= 0 && (len(result0.SPSnalus) == 1 ==> len(result0.PPSnalus) == int(data[8+int(be16(data, 6))]))
+//@   ensures[C15] result1 == nil && len(result0.SPSnalus) == 1 && len(result0.PPSnalus) >= 1 ==> result0.PPSnalus[0] == data[11+int(be16(data, 6)):11+int(be16(data, 6))+int(be16(data, 9+int(be16(data, 6))))]
+//@   loop 1 invariant 0 <= i && i <= int(numSPS) && len(spsNALUs) == i && 6 <= pos && pos <= len(data)
+//@   loop 1 invariant i >= 1 ==> len(data) >= 8 && spsNALUs[0] == data[8:8+int(be16(data, 6))]
+//@   loop 1 invariant i == 0 ==> pos == 6
+//@   loop 1 invariant i == 1 ==> pos == 8 + int(be16(data, 6))
+//@   loop 2 invariant len(spsNALUs) == int(numSPS) && 7 <= pos && pos <= len(data) && ref(spsNALUs) != ref(ppsNALUs)
+//@   loop 2 invariant 0 <= i && i <= int(numPPS) && len(ppsNALUs) == i && (numSPS == 1 && i == 0 ==> pos == 9 + int(be16(data, 6)))
+//@   loop 2 invariant numSPS == 1 && i == 1 ==> pos == avccP11(data)
+//@   loop 2 invariant numSPS == 1 && i >= 1 ==> ppsNALUs[0] == data[11+int(be16(data, 6)):11+int(be16(data, 6))+int(be16(data, 9+int(be16(data, 6))))]
+//@   loop 2 invariant len(spsNALUs) >= 1 ==> len(data) >= 8 && spsNALUs[0] == data[8:8+int(be16(data, 6))]
+
+
+// Encoder, complete output as a trace of chunks (same vocabulary as C01/C03): header, SPS list, PPS count and list, and the
+// four trailing bytes; every NAL unit is written verbatim (chBytes) after its 16-bit length.
+//@ spec rec naluTr(ns [][]byte, n int, t uint64) uint64 = ite(n <= 0, t, trApp(trApp(naluTr(ns, n-1, t), chU(16, uint64(uint16(len(ns[n-1]))))), chBytes(ns[n-1])))
+//@ spec avccPre(a *DecConfRec, t uint64) uint64 = trApp(trApp(trApp(trApp(trApp(trApp(t, chU(8, uint64(1))), chU(8, uint64(a.AVCProfileIndication))), chU(8, uint64(a.ProfileCompatibility))), chU(8, uint64(a.AVCLevelIndication))), chU(8, uint64(0xff))), chU(8, uint64(byte(len(a.SPSnalus)) | 0xe0)))
+//@ spec avccMid(a *DecConfRec, t uint64) uint64 = trApp(naluTr(a.SPSnalus, len(a.SPSnalus), avccPre(a, t)), chU(8, uint64(byte(len(a.PPSnalus)))))
+//@ spec avccLists(a *DecConfRec, t uint64) uint64 = naluTr(a.PPSnalus, len(a.PPSnalus), avccMid(a, t))
+//@ spec avccTrail(a *DecConfRec, t uint64) uint64 = trApp(trApp(trApp(trApp(t, chU(8, uint64(0xfc | a.ChromaFormat))), chU(8, uint64(0xf8 | a.BitDepthLumaMinus1))), chU(8, uint64(0xf8 | a.BitDepthChromaMinus1))), chU(8, uint64(a.NumSPSExt)))
+//@ spec avccTr(a *DecConfRec, t uint64) uint64 = ite(sizeTrail(a) == 0, avccLists(a, t), avccTrail(a, avccLists(a, t)))
+
+//@ func (*DecConfRec).EncodeSW
+//@   uses C01
+//@   ensures[C15] result == nil ==> ghost(sw).tr == avccTr(a, old(ghost(sw).tr))
+//@   loop 1 invariant sw.(*bits.FixedSliceWriter).accError == nil ==> ghost(sw).tr == naluTr(a.SPSnalus, idx(1), avccPre(a, old(ghost(sw).tr)))
+//@   loop 2 invariant sw.(*bits.FixedSliceWriter).accError == nil ==> ghost(sw).tr == naluTr(a.PPSnalus, idx(2), avccMid(a, old(ghost(sw).tr)))
+
+
+// ---------------------------------------------------------------- derived picture size (ISO/IEC 14496-10, 7.4.2.1.1, eq. 7-19 .. 7-22)
+// ChromaArrayType = separate_colour_plane_flag ? 0 : chroma_format_idc; CropUnitX = 1 (ChromaArrayType 0) or SubWidthC;
+// CropUnitY = (1 or SubHeightC) * (2 - frame_mbs_only_flag); SubWidthC/SubHeightC of Table 6-1 (1: 2,2; 2: 2,1; 3: 1,1).
+// width = 16 * PicWidthInMbs - CropUnitX * (crop_left + crop_right),
+// height = 16 * (2 - frame_mbs_only_flag) * PicHeightInMapUnits - CropUnitY * (crop_top + crop_bottom).
+// pic_width_in_mbs_minus1 / pic_height_in_map_units_minus1 are not kept in the SPS struct and a postcondition cannot name
+// the parser's local variables, so the formula is stated with these two syntax elements existentially quantified:
+// width + CropUnitX*(l+r) is a multiple of 16, height + CropUnitY*(t+b) a multiple of 16*(2 - frame_mbs_only_flag), with the
+// crop units of the standard; without frame_cropping_flag all four offsets are zero.
+//@ spec avcCAT(s *SPS) byte = ite(s.SeparateColourPlaneFlag, byte(0), s.ChromaFormatIDC)
+//@ spec avcFld(s *SPS) uint = ite(s.FrameMbsOnlyFlag, uint(1), uint(2))
+//@ spec avcCropX(s *SPS) uint = ite(avcCAT(s) == 1 || avcCAT(s) == 2, uint(2), uint(1))
+//@ spec avcCropY(s *SPS) uint = ite(avcCAT(s) == 1, uint(2), uint(1)) * avcFld(s)
+//@ func ParseSPSNALUnit
+//@   ensures[C15] result1 == nil && !result0.FrameCroppingFlag ==> result0.FrameCropLeftOffset == 0 && result0.FrameCropRightOffset == 0 && result0.FrameCropTopOffset == 0 && result0.FrameCropBottomOffset == 0
+//@   ensures[C15] result1 == nil ==> (result0.Width + avcCropX(result0) * (result0.FrameCropLeftOffset + result0.FrameCropRightOffset)) % 16 == 0
+//@   ensures[C15] result1 == nil ==> (result0.Height + avcCropY(result0) * (result0.FrameCropTopOffset + result0.FrameCropBottomOffset)) % (16 * avcFld(result0)) == 0
+//@   ensures[C15] result1 == nil ==> (result0.SeparateColourPlaneFlag ==> result0.ChromaFormatIDC == 3)
+
+// ---------------------------------------------------------------- fixed-position SPS fields (ISO/IEC 14496-10, 7.3.2.1.1)
+// profile_idc, the constraint-flag byte and level_idc are the three bytes after the NAL unit header. Stated against the RAW
+// bytes of the NAL unit: byte 3 can only be an emulation prevention byte (which the standard's decoder drops) when it is
+// 03 after two zero bytes, i.e. after profile_idc = 0 and constraint byte = 0 (not a profile of the standard).
+// spsHdr: what has been established once the three bytes are read; kept through the parser's loops as "no reader error so
+// far ==> spsHdr" (reader errors are sticky: the helper contracts below).
+//@ pred spsHdr(sps *SPS, data []byte) = len(data) >= 4 && data[0] & 0x1f == 7 && sps.Profile == uint32(data[1]) && sps.ProfileCompatibility == uint32(data[2]) && (!(data[1] == 0 && data[2] == 0 && data[3] == 3) ==> sps.Level == uint32(data[3]))
+//@ func readScalingList
+//@   ensures old(reader.err) != nil ==> reader.err != nil
+//@   loop 1 invariant reader != nil && (old(reader.err) != nil ==> reader.err != nil)
+//@   assigns reader.err, reader.n, reader.v, reader.pos, reader.zeroCount, ghost(reader.rd).rpos, ghost(reader.rd).rz, ghost(reader.rd).rpay, ghost(reader.rd).rplen
+//@ func parseHrdParameters
+//@   ensures r.rd == old(r.rd) && (old(r.err) != nil ==> r.err != nil)
+//@   loop 1 invariant r != nil && hp != nil && r.rd == old(r.rd) && (old(r.err) != nil ==> r.err != nil)
+//@   loop 1 invariant fresh(hp) && (cap(hp.CpbEntries) == 0 || fresh(hp.CpbEntries))
+//@   assigns r.err, r.n, r.v, r.pos, r.zeroCount, ghost(r.rd).rpos, ghost(r.rd).rz, ghost(r.rd).rpay, ghost(r.rd).rplen
+//@ func parseVUI
+//@   ensures reader.rd == old(reader.rd) && (old(reader.err) != nil ==> reader.err != nil)
+//@   assigns reader.err, reader.n, reader.v, reader.pos, reader.zeroCount, ghost(reader.rd).rpos, ghost(reader.rd).rz, ghost(reader.rd).rpay, ghost(reader.rd).rplen
+// ASSUMPTION (trustkind): the only interface-typed memory written by parseVUI is the freshly allocated argument slice of
+// fmt.Errorf at sps.go:290; the frame obligation for it is not generated.
+//@   trustkind frame@M|any.pay
+//@   trustkind frame@M|any.tag
+//@ func ParseSPSNALUnit
+//@   uses C15
+//@   loop 1 invariant sps != nil && reader != nil && (reader.err == nil ==> spsHdr(sps, data))
+//@   loop 2 invariant sps != nil && reader != nil && (reader.err == nil ==> spsHdr(sps, data))
+//@   ensures[C15] result1 == nil ==> len(data) >= 4 && data[0] & 0x1f == 7 && result0.Profile == uint32(data[1]) && result0.ProfileCompatibility == uint32(data[2])
+//@   ensures[C15] result1 == nil && !(data[1] == 0 && data[2] == 0 && data[3] == 3) ==> result0.Level == uint32(data[3])
+
+// ---------------------------------------------------------------- configuration record built from parameter sets
+// The record's profile, compatibility and level bytes are bytes 1..3 of the first SPS NAL unit (same escape caveat as above),
+// and with includePS the parameter set lists are the caller's slices (every NAL unit verbatim, same order).
+// NOT provable (and false, see FINDING in the report): chroma format and bit depths of the SPS -- the code stores the
+// constants 1, 0, 0 whatever the SPS says (avcdecoderconfigurationrecord.go:49-51).
+//@ func CreateAVCDecConfRec
+//@   ensures[C15] result1 == nil ==> result0 != nil && len(spsNalus) >= 1 && len(spsNalus[0]) >= 4 && result0.AVCProfileIndication == spsNalus[0][1] && result0.ProfileCompatibility == spsNalus[0][2]
+//@   ensures[C15] result1 == nil && !(spsNalus[0][1] == 0 && spsNalus[0][2] == 0 && spsNalus[0][3] == 3) ==> result0.AVCLevelIndication == spsNalus[0][3]
+//@   ensures[C15] result1 == nil && includePS ==> result0.SPSnalus == spsNalus && result0.PPSnalus == ppsNalus
+//@   ensures[C15] result1 == nil && !includePS ==> len(result0.SPSnalus) == 0 && len(result0.PPSnalus) == 0
